@@ -49,10 +49,10 @@ def run(chk):
     extra += S.random_strings(rng, S.ST, 300 if quick else 20000, 4, 25)
     S.standard(chk, sc, INV, CLAUSES,
                'strict ok => tolerant identical; tolerant ok => output = input + inserted closers only',
-               extra_sources=extra)
+               extra_sources=extra, runs='B')
     # clause (b): one closer lost => strict reports an error, tolerant succeeds
     damaged = closer_deletions(chk, quick)
-    res = S.explore(chk, 'closerloss', [], invariants=['C07b_CloserLossRepaired', 'C07c_OnlyClosers'], sources=damaged, timeout=3000)
+    res = S.explore(chk, 'closerloss', [], invariants=['C07b_CloserLossRepaired', 'C07c_OnlyClosers'], sources=damaged, timeout=3000, runs='B')
     S.model_must_hold(chk, res)
     S.replay(chk, res.records)
     exps = obs.experiments(damaged)
